@@ -101,9 +101,7 @@ def length_guards(db, rep, lay):
     cfgname = db.config
     b = {'Layout': sorted(lay.values())[0]}
     td = dataflow.effective_guards(db, TABLE_DECOMMIT)
-    g1 = _find(td, lambda g: g.rel == 'EQ' and g.covers == 'all' and any(
-        ('len(a3.values)' in x and 'len(a2)' in y and any(l.startswith('a1.config.n_columns') for l in y) and 'op:mul' in y)
-        for x, y in ((g.lhs, g.rhs), (g.rhs, g.lhs))))
+    g1 = common.table_length_guard(db)
     rep.ob('C02.length', 'table-cells=columns*queries', bool(g1),
            'table_decommit must reject unless n_columns * queries.len() == values.len()', db.fns[TABLE_DECOMMIT].loc(), cfgname)
     fv = dataflow.effective_guards(db, FRI_VERIFY)
